@@ -26,6 +26,7 @@ SHARED_ATTRS = {
     "cache": (".cache",),
     "memo": ("namespace_matches",),
     "nsmap": ("ns_map",),
+    "config": ("config",),  # the ParserConfig of a shared parser/decoder instance (only in CONFIG_MODULES)
 }
 
 WRAPPED_ORIGINALS = []
@@ -37,7 +38,15 @@ def anchored_modules():
     from xsdata.formats.dataclass.models import builders, elements
     from xsdata.formats.dataclass.parsers import bases, mixins
 
-    return [context, elements, bases, mixins, builders]
+    return [context, elements, bases, mixins, builders] + config_modules()
+
+
+def config_modules():
+    from xsdata.formats.dataclass.parsers import dict as dict_decoder
+    from xsdata.formats.dataclass.parsers import utils
+    from xsdata.formats.dataclass.parsers.nodes import element, primitive, standard, union
+
+    return [dict_decoder, utils, element, union, primitive, standard]
 
 
 def code_objects(mod):
@@ -67,6 +76,7 @@ def code_objects(mod):
 def yield_lines():
     """{filename: {lineno: group}} from the *current* sources."""
     out = {}
+    cfg_mods = config_modules()
     for mod in anchored_modules():
         try:
             src = inspect.getsource(mod).splitlines()
@@ -79,6 +89,8 @@ def yield_lines():
             if not code.strip() or code.strip().startswith(('"""', "def ", "class ")):
                 continue
             for group, names in SHARED_ATTRS.items():
+                if (group == "config") != (mod in cfg_mods):
+                    continue
                 if any(re.search(re.escape(n) + r"\b", code) for n in names):
                     lines[i] = group
                     break
